@@ -316,11 +316,24 @@ def r7_plumbing(chk, rule='C01.R7'):
     chk.ob(rule, 'regSym/compliance', len(comp) == 1 and 'moduleCompliance' in [
         norm(t) for t, b in ir.guards_of(common.stmt_of(comp[0]), rs)], where(ci.mod, rs), '')
     ent = [s for s in walk_no_nested(rs) if isinstance(s, ast.Assign) and norm(s.targets[0]) == 'self._enterpriseOid']
-    ok = len(ent) == 1 and norm(ent[0].value) == "'.'.join(outDict['oid'].split('.')[:7])" and \
-        [norm(t) for t, b in ir.guards_of(ent[0], rs)][-1] == \
-        "not self._enterpriseOid and outDict['oid'].startswith('1.3.6.1.4.1.')"
+    ok = len(ent) == 1
+    if ok:
+        val = norm(ent[0].value)
+        conj = []
+        for t, b in ir.guards_of(ent[0], rs):
+            conj.extend(norm(c) for c in ir.conjuncts(t))
+        first_only = 'not self._enterpriseOid' in conj
+        textual = "outDict['oid'].startswith('1.3.6.1.4.1.')" in conj and \
+            val == "'.'.join(outDict['oid'].split('.')[:7])"
+        arcs = [c for c in conj if c.endswith("[:6] == ['1', '3', '6', '1', '4', '1']")]
+        compwise = False
+        if arcs:
+            v = arcs[0].split('[:6]')[0]
+            compwise = val == "'.'.join(%s[:7])" % v and any(c in ('len(%s) > 6' % v, 'len(%s) >= 7' % v) for c in conj)
+        ok = first_only and (textual or compwise)
     chk.ob(rule, 'regSym/enterprise', ok, where(ci.mod, rs),
-           'enterprise OID must be the first 7 arcs of the first OID strictly below 1.3.6.1.4.1: %s under %s' % (
+           'enterprise OID must be the first 7 arcs of the first OID strictly below 1.3.6.1.4.1 (an OID equal to '
+           '1.3.6.1.4.1 has no enterprise arc): %s under %s' % (
                [norm(e.value) for e in ent], [norm(t) for e in ent for t, b in ir.guards_of(e, rs)]))
     # callers pass the flags
     clauses = ir.clause_model(model)
